@@ -760,7 +760,12 @@ def make_page(context, root_box, page_type, resume_at, page_number,
                 item = target_collector.target_lookup_items.get(
                     anchor_name, None)
                 page_maker_index = item.page_maker_index
-                if page_maker_index >= 0 and anchor_name in cached_anchors:
+                if anchor_name not in cached_anchors:
+                    # The target is not on the pages made before this one:
+                    # make this page again when the number of pages changes,
+                    # to ask again for the target's page (if it is known).
+                    remake_state['pages_wanted'] = True
+                if page_maker_index is not None:
                     page_maker[page_maker_index][-1]['pages_wanted'] = True
                 # 'content_changed' is triggered in
                 # targets.cache_target_page_counters()
